@@ -266,10 +266,18 @@ def r3_update_program_replaces(ctx):
               "callers(update_program)", "update_program is reached from the worker command handler and the sync executor", "callers: %s" % callers)
 
 
+def r4_remap_feeds_tables(ctx):
+    """the tables are computed over ids that merge_bytecode remapped: remap tables fresh per merge and fed only by register_*/import_* (shared with C07/C10)"""
+    from rules import c07
+    c07.r5_remap_order_and_freshness(ctx, "R-C08-4")
+    c07.r2_index_fields(ctx, "R-C08-5")
+
+
 def run(ctx):
     r1_concrete_tags(ctx)
     r2_tables_describe_whole_program(ctx)
     r3_update_program_replaces(ctx)
+    r4_remap_feeds_tables(ctx)
     ctx.note("check_message_compatible's permissive default (unwrap_or(true)) applies only when a parameter table has no entry; recorded as an assumption")
     return (
         "Decides table-construction clauses: every runtime value kind has exactly its concrete tag; the table builder inserts each tag under "
